@@ -164,7 +164,7 @@ pub fn grid(devs: &[Dev]) -> Vec<CapCase> {
 /// issued from a macro body, inside a conditional or after the content; the last unit placed by a
 /// macro whose body starts with `.org`; an over-full memory followed by an `.org` back to its start
 /// (in the same segment or after an excursion into another one).  way >= 10.
-pub const PLACEMENTS: &[&str] = &["device-in-macro-body", "device-in-taken-conditional", "device-after-the-content", "last-unit-placed-by-macro-with-org", "overfull-then-org-back", "overfull-then-excursion-and-org-back", "device-in-macro-defined-later"];
+pub const PLACEMENTS: &[&str] = &["device-in-macro-body", "device-in-taken-conditional", "device-after-the-content", "last-unit-placed-by-macro-with-org", "overfull-then-org-back", "overfull-then-excursion-and-org-back", "device-in-macro-defined-later", "origin-in-empty-segment-then-continued"];
 
 pub fn placement_grid(devs: &[Dev]) -> Vec<CapCase> {
     let mut out = vec![];
@@ -190,6 +190,9 @@ pub fn placement_grid(devs: &[Dev]) -> Vec<CapCase> {
                         "device-in-taken-conditional" => (format!(".equ c12_sel = 1\n.if c12_sel == 0\n.device ATnothing\n.elif c12_sel == 1\n.device {}\n.endif\n{}", name, plain), u <= cap),
                         "device-after-the-content" => (format!("{}.cseg\n.device {}\n", plain, name), u <= cap),
                         "last-unit-placed-by-macro-with-org" => (format!(".device {}\n.macro c12_place\n{}.org @0\n{}\n.cseg\n.endm\nc12_place {}\n", name, seg, unit, start + u - 1), u <= cap),
+                        // an origin with nothing behind it, an excursion, then the memory is continued: what
+                        // follows lands behind the origin (C02), so u units are in use
+                        "origin-in-empty-segment-then-continued" if u >= 2 => (format!(".device {}\n{}.org {}\n.cseg\n.eseg\n.dseg\n.cseg\n{}{}\n{}\n", name, seg, start + u - 2, seg, unit, unit), u <= cap),
                         "overfull-then-org-back" if u > cap => (format!(".device {}\n{}.org {}\n{}\n", name, plain, start, unit), false),
                         "overfull-then-excursion-and-org-back" if u > cap => (format!(".device {}\n{}.cseg\n.eseg\n.dseg\n.cseg\n{}.org {}\n{}\n", name, plain, seg, start, unit), false),
                         _ => continue,
